@@ -48,9 +48,10 @@ const (
 	OpWaitCtx
 	OpJoin
 	OpSendErr // handler only: stream.SendError directly (rare)
+	OpDelay   // let Size scheduling points pass
 )
 
-var opNames = []string{"Send", "Recv", "RecvAll", "CloseSend", "Close", "Flush", "WaitCtx", "Join", "SendErr"}
+var opNames = []string{"Send", "Recv", "RecvAll", "CloseSend", "Close", "Flush", "WaitCtx", "Join", "SendErr", "Delay"}
 
 type Op struct {
 	Kind   int
@@ -62,6 +63,9 @@ type Op struct {
 func (o Op) String() string {
 	if o.Kind == OpSend {
 		return fmt.Sprintf("Send(%d,s%d#%d)", o.Size, o.Sender, o.Seq)
+	}
+	if o.Kind == OpDelay {
+		return fmt.Sprintf("Delay(%d)", o.Size)
 	}
 	return opNames[o.Kind]
 }
@@ -215,23 +219,24 @@ type E1Mode struct {
 	ManualOK    bool
 	ServeP      float64
 	Catalog     bool
+	CloserP     float64 // probability that a duplex rpc gets a concurrent closer task
 }
 
 func e1ModeFor(prop string) E1Mode {
 	m := E1Mode{Prop: prop, MaxRPCs: 4, MaxTasks: 1, ForceSoftC: -1, Probe: true, ManualOK: true, ServeP: 0.15}
 	switch prop {
 	case "C01":
-		m.Duplex, m.BigP, m.SmallNet, m.MaxRPCs = 0.5, 0.3, 0.4, 3
+		m.Duplex, m.BigP, m.SmallNet, m.MaxRPCs, m.CloserP = 0.5, 0.3, 0.4, 3, 0.25
 	case "C02":
 		m.MaxRPCs, m.MaxTasks, m.Misbehave, m.CancelP, m.ErrP = 6, 3, 0.4, 0.35, 0.3
 	case "C04":
-		m.MaxRPCs, m.CancelP, m.Duplex, m.StallP, m.SmallNet, m.Misbehave = 2, 0.9, 0.5, 0.5, 0.5, 0.2
+		m.MaxRPCs, m.CancelP, m.Duplex, m.StallP, m.SmallNet, m.Misbehave, m.CloserP = 2, 0.9, 0.6, 0.5, 0.5, 0.2, 0.6
 	case "C05":
 		m.MaxRPCs, m.IOFaults, m.ErrP, m.Misbehave, m.Duplex = 3, true, 0.2, 0.2, 0.2
 	case "C06":
 		m.MaxRPCs, m.Misbehave, m.CancelP, m.ErrP, m.ForceSoftC, m.StallP, m.StallHeals = 4, 0.7, 0.4, 0.3, 1, 0.2, true
 	case "C07":
-		m.MaxRPCs, m.MaxTasks, m.Duplex, m.CancelP, m.Misbehave, m.SmallNet = 4, 3, 0.6, 0.4, 0.4, 0.6
+		m.MaxRPCs, m.MaxTasks, m.Duplex, m.CancelP, m.Misbehave, m.SmallNet, m.CloserP = 4, 3, 0.6, 0.4, 0.4, 0.6, 0.5
 	case "C10":
 		m.MaxRPCs, m.ErrP, m.UnknownP = 4, 0.7, 0.1
 	case "C11":
@@ -446,8 +451,8 @@ func (g *e1gen) duplex(r *RPCSpec) {
 			n := 1 + g.weighted(2, 3, 2, 1)
 			for i := 0; i < n; i++ {
 				sz := g.size()
-				if nsend > 1 && sz < 12 {
-					sz = 12 + sz
+				if sz < 12 {
+					sz = 12 + sz // duplex messages always carry the self-describing header
 				}
 				ops = append(ops, Op{Kind: OpSend, Size: sz, Sender: s, Seq: i})
 			}
@@ -468,6 +473,18 @@ func (g *e1gen) duplex(r *RPCSpec) {
 	r.COps = []Op{{Kind: OpJoin, Size: len(r.CAux) - 1}, {Kind: OpCloseSend}, {Kind: OpJoin, Size: len(r.CAux)}}
 	r.HOps = []Op{{Kind: OpJoin, Size: len(r.HAux) - 1}, {Kind: OpJoin, Size: len(r.HAux)}}
 	r.Clean = true
+	// a concurrent closer on either side (joined last, so it never delays the script)
+	if g.chance(g.mode.CloserP) {
+		k := []int{OpClose, OpCloseSend, OpClose}[g.pick(3)]
+		closer := []Op{{Kind: OpDelay, Size: g.delay()}, {Kind: k}}
+		if g.chance(0.7) {
+			r.CAux = append(r.CAux, closer)
+		} else {
+			r.HAux = append(r.HAux, closer)
+		}
+		r.Clean = false
+		r.Misbehaved = true
+	}
 }
 
 func (g *e1gen) misbehave(r *RPCSpec) {
@@ -485,7 +502,7 @@ func (g *e1gen) misbehave(r *RPCSpec) {
 		r.HOps = append(r.HOps, Op{Kind: OpWaitCtx})
 	}
 	if g.chance(0.15) {
-		r.COps = append(r.COps, Op{Kind: OpClose}, Op{Kind: OpSend, Size: 13, Seq: 99}, Op{Kind: OpRecv})
+		r.COps = append(r.COps, Op{Kind: OpClose}, Op{Kind: OpSend, Size: 13, Sender: 9, Seq: 0}, Op{Kind: OpRecv})
 	}
 }
 
